@@ -269,6 +269,38 @@ def run_shard(spec, ctx):
                          "find_last:key-calls-find_last", ("findl-reentrant", src(rows), target))
                 R.expect("find(%s, %d, key = fn(row) find_last(row, 'x') - find_last(row, 'x') + find(row, 'x'))" % (src(rows), target), want_f,
                          "find:key-calls-both", ("find-reentrant2", src(rows), target))
+            # elements that are different values with the same host payload (TRUE and 1, 'a' and //a//), equal numbers of
+            # different kinds (1 and 1.0): the position is that of the first / last *equal* element
+            puns = [("TRUE", ("bool", True)), ("FALSE", ("bool", False)), ("1", ("num", 1.0)), ("0", ("num", 0.0)), ("1.0", ("num", 1.0)), ("0.0", ("num", 0.0)),
+                    ("'a'", ("str", "a")), ("//a//", ("pat", "a")), ("'1'", ("str", "1")), ("'TRUE'", ("str", "TRUE")), ("NULL", ("null",)), ("[1]", ("list", 1.0)),
+                    ("[TRUE]", ("list", True)), ("//1//", ("pat", "1")), ("''", ("str", "")), ("[]", ("list",))]
+            seq = [r.choice(puns) for _ in range(r.randint(2, 9))]
+            part = r.choice(seq if r.random() < 0.7 else puns)
+
+            def same(x, y):
+                return x[1] == y[1] and type(x[1][-1]) is type(y[1][-1])
+            L_ = "[" + ", ".join(x[0] for x in seq) + "]"
+            wf = next((q for q, x in enumerate(seq) if same(x, part)), -1)
+            wl = next((q for q in reversed(range(len(seq))) if same(seq[q], part)), -1)
+            R.expect("[find(%s, %s), find_last(%s, %s)]" % (L_, part[0], L_, part[0]), [wf, wl], "find:list:same-payload-other-kind", ("find-pun", L_, part[0]))
+            st = r.randint(0, len(seq))
+            wfs = next((q for q, x in enumerate(seq) if q >= st and same(x, part)), -1)
+            R.expect("find(%s, %s, start = %d)" % (L_, part[0], st), wfs, "find-start:list:same-payload-other-kind", ("find-pun-start", L_, part[0], st))
+            # a key function is asked about the elements the search looks at: one that cannot answer for an element the
+            # search never reaches (beyond the hit, before the start) does not make the search fail
+            words = [r.choice(["ab", "cb", "xyz", "qb", "abc"]) for _ in range(r.randint(1, 4))]
+            hit = r.randrange(len(words))
+            short = ["", "a", ""]
+            fwd = words[:hit + 1] + [r.choice(short) for _ in range(r.randint(1, 3))]
+            target = words[hit][1]
+            wf = next(q for q, w in enumerate(fwd) if w[1] == target)
+            R.expect("find(%s, %s, key = fn(x) x[1])" % (src(fwd), src(target)), wf, "find:key-undefined-beyond-hit", ("find-partial-key", src(fwd), target))
+            bwd = [r.choice(short) for _ in range(r.randint(1, 3))] + words[hit:]
+            wl = max(q for q, w in enumerate(bwd) if len(w) > 1 and w[1] == target)
+            R.expect("find_last(%s, %s, key = fn(x) x[1])" % (src(bwd), src(target)), wl, "find_last:key-undefined-before-hit", ("findl-partial-key", src(bwd), target))
+            both = [r.choice(short)] + words + [r.choice(short)]
+            wst = next((q for q, w in enumerate(both) if q >= 1 and len(w) > 1 and w[1] == target), -1)
+            R.expect("find(%s, %s, key = fn(x) x[1], start = 1)" % (src(both), src(target)), wst, "find-start:key-undefined-before-start", ("find-partial-key-start", src(both), target))
         ctx.count("random_sequences", spec["n"])
 
 
